@@ -6,6 +6,7 @@ import (
 	"fmt"
 	"math"
 	"reflect"
+	"regexp"
 	"sort"
 	"strconv"
 	"strings"
@@ -583,6 +584,33 @@ func Exotic(name string) any {
 		return reflect.ValueOf(1)
 	}
 	panic("harness: unknown exotic " + name)
+}
+
+var addrRx = regexp.MustCompile(`0x[0-9a-f]{5,}`)
+
+// ExoticVolatile: does printing the value (what a string coercion does) show an address? Then everything the
+// library computes from it depends on where the allocator put it, and the world is replayed by verdict only.
+func ExoticVolatile(name string) bool {
+	if r, ok := exoticVolatileMemo[name]; ok {
+		return r
+	}
+	r := exoticVolatile(name)
+	exoticVolatileMemo[name] = r
+	return r
+}
+
+var exoticVolatileMemo = map[string]bool{}
+
+func exoticVolatile(name string) bool {
+	v := Exotic(name)
+	if v == nil {
+		return false
+	}
+	switch reflect.ValueOf(v).Kind() {
+	case reflect.Chan, reflect.Func, reflect.UnsafePointer:
+		return true
+	}
+	return addrRx.MatchString(fmt.Sprintf("%v|%+v", v, v))
 }
 
 var ExoticNames = []string{
